@@ -692,6 +692,7 @@ class Tokenizer:
 
             if char == Re.NEW_LINE:
                 self.__parse_newline(char)
+                self.is_slash = False
                 continue
 
             if (
@@ -704,6 +705,7 @@ class Tokenizer:
                 if self.token_str:
                     self.append_token()
                 self.state = TokenType.COMMENT
+                self.is_slash = False
                 continue
 
             if self.state == TokenType.KEYWORD or self.state == TokenType.OPERATOR:
@@ -713,6 +715,7 @@ class Tokenizer:
 
             if self.state is None:
                 if self.__parse_none(char):
+                    self.is_slash = False
                     continue
 
             elif self.state == TokenType.STRING:
